@@ -250,6 +250,42 @@ CLAIMED["C13"] = {
     "design_ref": "DESIGN.md section 8, C13",
 }
 
+CLAIMED["C20"] = {
+    "text": "Theorems about the model: C20_cdps / C20_triggers_pht ([E9001]/[E9002] is among the custom-check errors IFF the key is configured and "
+            "the collected count differs), C20_rdh_version (for EVERY sequence of RDHs, each one is flagged on its header id IFF its version "
+            "differs from the configured one; by induction over the sequence with the latch invariant) and C20_rdh_version_default, C20_chips "
+            "(outer-barrel lanes: [E9004] IFF the chip count differs, [E9005] IFF the count is right and the chip list is none of the configured "
+            "orders; corollary of the C13 lane theorems), C20_default_* (absent keys change nothing), C20_period_distance (for all legal bunch "
+            "crossings the computed distance is (cur + 3564 - prev) mod 3564; the constant is regenerated), C20_period_pairs ([E45] at a TDH IFF "
+            "it and the last earlier internal-trigger TDH differ from P) and C20_period_bookkeeping (which TDH that is, after ANY TDH sequence). "
+            "Tied to the code by the real LinkValidator (period streams with wrap-around over orbits, P and P+-1, moved / missing / physics-only "
+            "triggers; rdh_version / chip_count_ob / chip_orders_ob variants) against the extracted model and independent oracles, and by the "
+            "binary with generated TOML files (subsets of the five keys, one key off by one, commented keys, all-default file vs no file).",
+    "note": "Trusted: Coq kernel; gen translator; harness; binary; extraction + driver; toml/serde parsing of the file; the Python oracles. "
+            "Bunch crossings above 3563 are outside the period theorem (u16 wrap, witnessed). That the collected counts equal the input's is C14.",
+    "technique": "Coq proof (iff-lemmas over the collector / RDH sanity / lane-check models, induction over RDH and TDH sequences, modular arithmetic by lia) + differential correspondence and CLI sweep of TOML configurations",
+    "design_ref": "DESIGN.md section 8, C20",
+}
+
+CLAIMED["C19"] = {
+    "text": "Theorems about the model of the three views (rows as records; the text layout is parsed by the check): C19_rdh_rows (one row per packet, "
+            "in order, with offset and the 14 header values), C19_frame_rows (per packet one RDH row then its word rows, each placed with the data "
+            "format of its OWN RDH -- regenerated fact), C19_word_rows / C19_row_per_word (every status word exactly one row, data words in the data "
+            "view, unknown ids logged; offset and quoted bytes are those of the examined word), C19_word_position (payload start + index * slot, "
+            "constants regenerated), C19_quoted_bytes (the quoted bytes are the payload slice at index * slot), C19_tdh_attributes / "
+            "C19_tdt_packet_status / C19_lane_faults (for ALL 2^80 words the decoded trigger kind, continuation, no-data, orbit, BC, packet status "
+            "and worst lane status of the 28 two-bit lanes equal the documented bit fields; byte masks regenerated from util.rs; 256-value byte "
+            "tables), C19_agrees_with_checker (on every word legal where it stands the type shown = the type the checker's state machine assigns; "
+            "complete 11 x 256 x 4 table). Tied to the code by running the rebuilt binary (3 views x styled / -d x filters x file / pipe) on "
+            "arbitrary well-framed inputs incl. mixed data formats and on conforming streams: every printed row parsed back and compared with the "
+            "extracted model, with an independent decoding of the input bytes, and styled with unstyled.",
+    "note": "Trusted: Coq kernel + vm_compute; gen/facts_view.py; binary; extraction + driver; the row parser and ANSI-stripping regex (text layout "
+            "itself is not modelled); the independent decoder. Layer-7 FEE ids crash the frame views (F6, C04). A payload that cannot be cut into "
+            "words ends the view of its batch: rows before it are compared, later ones are not.",
+    "technique": "Coq proof (bit-field lemmas over all words, byte tables, reflective FSM table, structural lemmas with regenerated facts) + CLI correspondence parsing every row back",
+    "design_ref": "DESIGN.md section 8, C19",
+}
+
 ALL = ["C%02d" % i for i in range(1, 21)]
 PENDING_REASON = "not claimed yet: the model/proof for this property is still under construction in this development (see DESIGN.md section 12 build order); no check is registered until its theorem file compiles without admits and its correspondence stream runs"
 
